@@ -830,12 +830,12 @@ fn run_c19(ch: &mut Choices, rep: &mut RunReport) -> Outcome {
                 1 => Some(static_ok(&login)),
                 2 => Some(ext_ok(&login)),
                 _ => {
-                    let (a, b) = (static_ok(&login), ext_ok(&login));
-                    if a == b {
-                        Some(a)
-                    } else {
-                        None
-                    }
+                    // both configured: the authentication callback decides (that is
+                    // how the listener is documented by its own unit tests: a login
+                    // the callback accepts is admitted although the table does not
+                    // list it; a login the callback refuses is refused)
+                    let _ = static_ok(&login);
+                    Some(ext_ok(&login))
                 }
             };
             let id_ok = !id.chars().any(|c| "+$#/".contains(c)) && (!id.is_empty() || clean);
@@ -1063,10 +1063,13 @@ fn gen_props(sh: &Shared) -> Option<PubProps> {
         p.response_topic = Some("reply/here".to_string());
     }
     if mask & 8 != 0 {
-        p.correlation_data = Some(vec![1, 2, 3, sh.pick(256) as u8]);
+        // lengths that move the property block across the 127/128 boundary
+        let n = if sh.coin(1, 2) { 4 } else { sh.pick(300) as usize };
+        p.correlation_data = Some((0..n).map(|i| (i % 251) as u8).collect());
     }
     if mask & 16 != 0 {
-        p.user_properties = vec![("k".to_string(), format!("v{}", sh.pick(10)))];
+        let n = if sh.coin(1, 2) { 2 } else { sh.pick(200) as usize };
+        p.user_properties = vec![("k".to_string(), "v".repeat(n))];
     }
     if mask & 32 != 0 {
         p.content_type = Some("text/plain".to_string());
@@ -1081,7 +1084,12 @@ fn run_c20(ch: &mut Choices, rep: &mut RunReport) -> Outcome {
     let pub_v5 = ch.coin(1, 2);
     let sub_v5 = ch.coin(1, 2);
     let sub_qos = ch.pick(3) as u8;
-    let sub_id = if sub_v5 && ch.coin(1, 3) { Some(1 + ch.pick(5) as usize) } else { None };
+    // subscription identifiers at the variable-length-integer boundaries
+    let sub_id = if sub_v5 && ch.coin(1, 3) {
+        Some(*ch.choose(&[1usize, 2, 5, 127, 128, 129, 16383, 16384, 16385, 2097151, 2097152, 268435455]))
+    } else {
+        None
+    };
     let sub_alias_max = if sub_v5 && ch.coin(1, 3) { Some(*ch.choose(&[1u16, 2, 10])) } else { None };
     let wildcard = ch.coin(1, 2);
     let n_msgs = 1 + ch.pick(8);
@@ -1136,7 +1144,13 @@ fn run_c20(ch: &mut Choices, rep: &mut RunReport) -> Outcome {
         let mut seen_unsuback = false;
         for i in 0..n_msgs {
             let topic = if wildcard && sh.coin(1, 2) { "t/b" } else { "t/a" };
-            let payload = format!("m{i}").into_bytes();
+            let mut payload = format!("m{i}").into_bytes();
+            // sometimes a payload that puts the frame at a remaining-length boundary
+            match sh.pick(12) {
+                0 => payload.resize(100 + sh.pick(60) as usize, b'x'),
+                1 => payload.resize(16360 + sh.pick(40) as usize, b'y'),
+                _ => {}
+            }
             let qos = sh.pick(3) as u8;
             let pkid = if qos > 0 { 100 + i as u16 } else { 0 };
             let mut props = if pub_v5 { gen_props(&sh) } else { None };
@@ -1372,6 +1386,9 @@ struct WillCase {
     will: Option<(String, Vec<u8>, u8, bool)>,
     /// (bytes, is the DISCONNECT frame)
     frames: Vec<(Vec<u8>, bool)>,
+    /// Before the session: the same client id tries to connect WITH a will
+    /// while the broker is full and is refused; that will must never appear.
+    ghost: bool,
 }
 
 fn gen_will_case(ch: &mut Choices) -> WillCase {
@@ -1410,12 +1427,14 @@ fn gen_will_case(ch: &mut Choices) -> WillCase {
         1 => frames.push((ack_bytes(wv5, 0, 65535), false)), // protocol error: the router closes
         _ => {}
     }
+    let ghost = ch.coin(1, 4);
     WillCase {
         wv5,
         vv5,
         keep_alive,
         will,
         frames,
+        ghost,
     }
 }
 
@@ -1424,7 +1443,7 @@ fn gen_will_case(ch: &mut Choices) -> WillCase {
 /// closes it (way 1).
 fn run_will_point(case: &WillCase, k: usize, way: u8, ch: &mut Choices, rep: &mut RunReport) -> Outcome {
     let cfg = NetCfg {
-        max_connections: 10,
+        max_connections: if case.ghost { 2 } else { 10 },
         conn4: base_conn(500),
         conn5: base_conn(500),
     };
@@ -1445,6 +1464,42 @@ fn run_will_point(case: &WillCase, k: usize, way: u8, ch: &mut Choices, rep: &mu
         if !matches!(v.recv(Duration::from_secs(2)).await, Rx::SubAck(1)) {
             sh.viol("watcher_no_suback", "watcher got no SUBACK");
             return;
+        }
+        if case.ghost {
+            // fill the broker, let "willer" be refused with a will on board, make room again
+            let mut filler = Cli::new(accept(&sh, &ls, case.wv5, "filler"), case.wv5, "filler");
+            let fspec = ConnectSpec {
+                id: "filler".into(),
+                clean: true,
+                keep_alive: 600,
+                ..Default::default()
+            };
+            if !connect_ok(&mut filler, &fspec).await {
+                sh.viol("filler_not_connected", "filler got no CONNACK");
+                return;
+            }
+            let mut ghost = Cli::new(accept(&sh, &ls, case.wv5, "ghost"), case.wv5, "ghost");
+            let gspec = ConnectSpec {
+                id: "willer".into(),
+                clean: true,
+                keep_alive: 60,
+                will: Some(("w/ghost".to_string(), b"ghost".to_vec(), 0, false)),
+                ..Default::default()
+            };
+            ghost.send(&connect_bytes(case.wv5, &gspec)).await;
+            match ghost.recv(Duration::from_secs(1)).await {
+                Rx::ConnAck { ok: true, .. } => {
+                    // admitted although the broker is full: C19's business, not judged here
+                    sh.probe("ghost_unexpectedly_admitted");
+                    return;
+                }
+                _ => sh.probe("ghost_connect_refused"),
+            }
+            drop(ghost);
+            filler.send(&disconnect_bytes()).await;
+            sleep_ms(100).await;
+            drop(filler);
+            sleep_ms(100).await;
         }
         let stream: Vec<u8> = case.frames.iter().flat_map(|(b, _)| b.iter().copied()).collect();
         let connect_len = case.frames[0].0.len();
@@ -1507,6 +1562,13 @@ fn run_will_point(case: &WillCase, k: usize, way: u8, ch: &mut Choices, rep: &mu
                 Rx::Publish { topic, payload, qos, pkid, retain, .. } => {
                     if qos == 1 {
                         v.send(&ack_bytes(case.vv5, 0, pkid)).await;
+                    }
+                    if topic == "w/ghost" {
+                        sh.viol(
+                            "will_of_refused_connection_published",
+                            "the will of a CONNECT that the broker refused (no room) was published later",
+                        );
+                        return;
                     }
                     if topic.starts_with("w/") {
                         wills += 1;
